@@ -5,7 +5,8 @@ package sym
 // UNINTERPRETED update: the chaining state becomes fresh unconstrained symbolic words. Everything
 // around it (buffering in Write, padding in Sum, hmac's ipad/opad logic) runs from real SSA, so
 // lengths, buffer handling and control flow stay exact; only digest VALUES are arbitrary. A harness
-// must therefore not assert anything that depends on a digest value.
+// must therefore not assert anything that depends on a digest value. (SHA-256 additionally keeps
+// functional consistency - equal inputs, equal digest - see intrinsics_crypto_uf.go.)
 
 import (
 	"golang.org/x/tools/go/ssa"
@@ -43,6 +44,6 @@ func init() {
 	}
 	intrinsics["crypto/md5.block"] = havoc("md5_state", 32)
 	intrinsics["crypto/sha1.block"] = havoc("sha1_state", 32)
-	intrinsics["crypto/sha256.block"] = havoc("sha256_state", 32)
+	intrinsics["crypto/sha256.block"] = sha256BlockUF // as havoc, plus functional consistency (intrinsics_crypto_uf.go)
 	intrinsics["crypto/sha512.block"] = havoc("sha512_state", 64)
 }
